@@ -101,6 +101,23 @@ fn write_network(dir: &Path, seed: u64) -> Net {
     std::fs::write(dir.join("edges.csv"), es).unwrap();
     std::fs::write(dir.join("speeds.csv"), speeds).unwrap();
     std::fs::write(dir.join("geoms.txt"), geoms).unwrap();
+    // tables for the deciding cache family (stream `ecache`): few distinct speeds and grades,
+    // all exactly ON the grid of the cache key, grades of both signs.  Under the real key
+    // function (round half away from zero) distinct values never share a key.
+    //   grid 0 (key_precisions [0,0]): speeds integer km/h, grades integer (decimal unit)
+    //   grid 1 (key_precisions [1,2] and [2,2]): speeds multiples of 0.5 km/h, grades multiples of 0.01
+    let mut g = Rng::new(seed ^ 0x6A1D);
+    let (mut s0, mut s1, mut g0, mut g1) = (String::new(), String::new(), String::new(), String::new());
+    for _ in 0..eid {
+        s0.push_str(&format!("{}\n", g.pick(&[30, 45, 60, 72])));
+        s1.push_str(&format!("{}\n", g.pick(&["30", "45.5", "60", "72.5"])));
+        g0.push_str(&format!("{}\n", g.range(-2, 2)));
+        g1.push_str(&format!("{}\n", g.pick(&["-0.03", "-0.02", "-0.01", "0.0", "0.01", "0.02", "0.03"])));
+    }
+    std::fs::write(dir.join("speeds_grid0.csv"), s0).unwrap();
+    std::fs::write(dir.join("speeds_grid1.csv"), s1).unwrap();
+    std::fs::write(dir.join("grades_grid0.txt"), g0).unwrap();
+    std::fs::write(dir.join("grades_grid1.txt"), g1).unwrap();
     Net { dir: dir.to_path_buf(), n_grid, sink_only: n_grid, isolated: n_grid + 1 }
 }
 
@@ -168,13 +185,15 @@ struct Ctx {
     pools: HashMap<usize, rayon::ThreadPool>,
     sink_dir: PathBuf,
     energy: bool, // stream `energy`: every application uses the energy_model traversal (3 cost features)
-    /// stream `ecache`: the energy applications under test have the prediction cache on, with a
-    /// key (speed rounded to 1 km/h, grade) that no two distinct inputs of this network share:
-    /// integer speed table, no grade table.  On such inputs the cache is transparent
+    /// stream `ecache`: the energy applications under test have the prediction cache on, with
+    /// key_precisions [0,0], [1,2] or [2,2] (chosen by the plugin/termination variant) and speed /
+    /// grade tables whose values lie exactly on the key grid, grades of both signs: no two distinct
+    /// inputs of the network share a key.  On such inputs the cache is transparent
     /// (c06_cache_transparent_if_stable), so the reference (each query alone, and the component
     /// tables of the model) is taken from an application WITHOUT cache.
     cache: bool,
 }
+const ECACHE_PRECISIONS: [(i32, i32); 3] = [(0, 0), (1, 2), (2, 2)];
 /// marker for the reference application of a variant (parallelism 1, never a cache)
 const REF: usize = usize::MAX;
 impl Ctx {
@@ -188,7 +207,8 @@ impl Ctx {
         if !self.apps.contains_key(&(p_cfg, lb, iter)) {
             let a = if self.energy {
                 let cached = self.cache && p_cfg != REF;
-                build_energy_app(&self.net, if p_cfg == REF { 1 } else { p_cfg }, lb, iter, cached)
+                let grid = if self.cache { Some(ECACHE_PRECISIONS[(lb as usize + 2 * iter as usize) % 3]) } else { None };
+                build_energy_app(&self.net, if p_cfg == REF { 1 } else { p_cfg }, lb, iter, cached, grid)
             } else {
                 build_app(&self.net, if p_cfg == REF { 1 } else { p_cfg }, lb, iter)
             };
@@ -1231,20 +1251,28 @@ fn stream_batch(a: &Args, energy: bool, cache: bool) {
 
 // ---------------------------------------------------------------- stream cache (probe, never an alarm)
 
-fn build_energy_app(net: &Net, p_cfg: usize, lb: bool, iter: bool, cached: bool) -> CompassApp {
+fn build_energy_app(net: &Net, p_cfg: usize, lb: bool, iter: bool, cached: bool, grid: Option<(i32, i32)>) -> CompassApp {
     let lbp = if lb {
         ",\n  { type = \"load_balancer\", weight_heuristic = { type = \"custom\", custom_weight_type = { type = \"numeric\" } } }"
     } else {
         ""
     };
-    let mut toml = energy_toml(net, if cached { Some((0, 0)) } else { None })
+    let mut toml = energy_toml(net, if cached { grid } else { None })
         .replace("parallelism = 1\n", &format!("parallelism = {}\n", p_cfg))
         .replace("input_plugins = []", &format!("input_plugins = [\n  {{ type = \"grid_search\" }}{}\n]", lbp))
         .replace("distance = 0\ntime = 0\nenergy_liquid = 1", "distance = 1\ntime = 1\nenergy_liquid = 1");
+    if let Some((ps, _)) = grid {
+        // on-grid speed and grade tables (the reference application reads the same tables)
+        let k = if ps == 0 { 0 } else { 1 };
+        let d = net.dir.to_str().unwrap();
+        toml = toml
+            .replace("speeds.csv", &format!("speeds_grid{}.csv", k))
+            .replace("grade_table_grade_unit = \"decimal\"", &format!("grade_table_grade_unit = \"decimal\"\ngrade_table_input_file = \"{}/grades_grid{}.txt\"", d, k));
+    }
     if iter {
         toml = toml.replace("[access]", &format!("[termination]\ntype = \"iterations\"\nlimit = {}\n[access]", ITER_LIMIT));
     }
-    let conf = net.dir.join(format!("energy_{}_{}_{}_{}.toml", p_cfg, lb, iter, cached));
+    let conf = net.dir.join(format!("energy_{}_{}_{}_{}_{}.toml", p_cfg, lb, iter, cached, grid.is_some()));
     std::fs::write(&conf, &toml).unwrap();
     CompassApp::try_from_config_toml_string(toml, conf.to_str().unwrap().to_string(), &CompassAppBuilder::default())
         .unwrap_or_else(|e| panic!("energy app build failed: {}", e))
